@@ -128,6 +128,131 @@ func c18PathProgram(rng *rand.Rand, server string, n int) gProg {
 	return p
 }
 
+// c18RandAttr draws an attribute block: flags out of size / owner / permissions / times / extended pairs (only
+// those in allowed; at most one of size, owner, permissions when one is set) with values that no other request of the
+// program carries.
+func c18RandAttr(rng *rand.Rand, allowed uint32, one bool) (uint32, *gAttr) {
+	at := &gAttr{
+		Size:  []uint64{0, 7, 50, 1000, 70000, 200000}[rng.Intn(6)] + uint64(rng.Intn(5)),
+		UID:   uint32(1000 + rng.Intn(5000)),
+		GID:   uint32(1000 + rng.Intn(5000)),
+		Perm:  []uint32{0o600, 0o640, 0o644, 0o664, 0o755, 0o700, 0o444, 0o711}[rng.Intn(8)],
+		Atime: uint32(1_000_000_000 + rng.Intn(600_000_000)),
+		Mtime: uint32(1_000_000_000 + rng.Intn(600_000_000)),
+	}
+	for k := rng.Intn(3); k > 0; k-- {
+		at.Ext = append(at.Ext, [2]string{fmt.Sprintf("ext%d@example.com", rng.Intn(100)), strings.Repeat("v", rng.Intn(40))})
+	}
+	var af uint32
+	for af == 0 {
+		af = 0
+		for _, f := range []uint32{wire.ASize, wire.AUIDGID, wire.APerm, wire.ATime, wire.AExt} {
+			if allowed&f != 0 && rng.Intn(2) == 0 {
+				af |= f
+			}
+		}
+		if one { // keep the first of size / permissions / owner only
+			switch {
+			case af&wire.ASize != 0:
+				af &^= wire.APerm | wire.AUIDGID
+			case af&wire.APerm != 0:
+				af &^= wire.AUIDGID
+			}
+		}
+	}
+	return af, at
+}
+
+const c18AllAttrs = wire.ASize | wire.AUIDGID | wire.APerm | wire.ATime | wire.AExt
+
+// c18AttrProgram: requests that carry an attribute block — SETSTAT and FSETSTAT with size / owner / permissions /
+// times / extended pairs, OPEN and MKDIR with attributes — standing in line behind a command request whose call the
+// harness can hold, followed by one to three more requests of different frame lengths (shorter and longer than the
+// waiting request, so that a frame received into the same memory would cover its attribute block partly or wholly),
+// then the requests that show what was done: LSTAT of every path, FSTAT of the handle. The handle the FSETSTATs name
+// takes no WRITE, so that the outcome does not depend on the schedule. Returns the program and the number of the
+// request to keep back.
+func c18AttrProgram(rng *rand.Rand, server string, readOnly bool) (gProg, int) {
+	p := gProg{Server: server, Handles: []gHandle{{Name: "r0", Kind: "get", Path: "f0"}, {Name: "d0", Kind: "dir", Path: "d0"}}}
+	wr, vic := "r0", "r0" // a read-only server has no handles for writing: the requests are refused all the same, and their frames received
+	if !readOnly {
+		p.Handles = append(p.Handles, gHandle{Name: "w0", Kind: "put", Path: "g0"}, gHandle{Name: "v0", Kind: "put", Path: "g1"})
+		wr, vic = "w0", "v0"
+	}
+	n := 0
+	add := func(o gOp) {
+		n++
+		o.ID = uint32(n)
+		p.Ops = append(p.Ops, o)
+	}
+	for k := rng.Intn(3); k > 0; k-- {
+		add(gOp{K: "read", H: "r0", Off: int64(n) * 1009, Len: []uint32{1, 100, 4096}[rng.Intn(3)]})
+	}
+	// the command the others wait behind
+	block := len(p.Ops)
+	if server == "rs" {
+		add([]gOp{{K: "stat", P: "s0"}, {K: "lstat", P: "s0"}, {K: "mkdir", P: "mkb"}, {K: "readlink", P: "lnk"}, {K: "fstat", H: "r0"}, {K: "readdir", H: "d0"}, {K: "remove", P: "rmb"}}[rng.Intn(7)])
+	} else {
+		add([]gOp{{K: "fstat", H: "r0"}, {K: "readdir", H: "d0"}}[rng.Intn(2)])
+	}
+	// the requests with attributes
+	var watch []gOp
+	for k := 1 + rng.Intn(2); k > 0; k-- {
+		i := len(p.Ops)
+		switch rng.Intn(6) {
+		case 0, 1:
+			af, at := c18RandAttr(rng, c18AllAttrs, false)
+			o := gOp{K: "setstat", P: fmt.Sprintf("ss%d", i), AF: af, At: at}
+			if rng.Intn(4) == 0 {
+				o.P = fmt.Sprintf("ss%d-%s", i, strings.Repeat("n", 20+rng.Intn(150)))
+			}
+			add(o)
+			watch = append(watch, gOp{K: "lstat", P: o.P})
+		case 2, 3:
+			af, at := c18RandAttr(rng, c18AllAttrs, server == "os")
+			add(gOp{K: "fsetstat", H: vic, AF: af, At: at})
+			watch = append(watch, gOp{K: "fstat", H: vic})
+		case 4:
+			af, at := c18RandAttr(rng, c18AllAttrs, false)
+			o := gOp{K: "openw", P: fmt.Sprintf("ow%d", i), AF: af | wire.APerm, At: at}
+			if rng.Intn(3) == 0 {
+				o = gOp{K: []string{"open", "openrw"}[rng.Intn(2)], P: "s1", AF: af, At: at}
+			}
+			add(o)
+			watch = append(watch, gOp{K: "lstat", P: o.P})
+		default:
+			af, at := c18RandAttr(rng, c18AllAttrs, false)
+			o := gOp{K: "mkdir", P: fmt.Sprintf("mk%d", i), AF: af, At: at}
+			add(o)
+			watch = append(watch, gOp{K: "lstat", P: o.P})
+		}
+	}
+	// what is received while they wait: frames of different lengths
+	for k := 1 + rng.Intn(3); k > 0; k-- {
+		i := len(p.Ops)
+		switch rng.Intn(6) {
+		case 0:
+			add(gOp{K: "read", H: "r0", Off: int64(i) * 1009, Len: 100})
+		case 1:
+			add(gOp{K: "write", H: wr, Off: int64(i) * 8192, Len: []uint32{1, 64, 300, 5000}[rng.Intn(4)]})
+		case 2:
+			add(gOp{K: "realpath", P: "s0", Pad: []uint32{30, 120, 600, 3000}[rng.Intn(4)]})
+		case 3:
+			af, at := c18RandAttr(rng, c18AllAttrs, false)
+			add(gOp{K: "setstat", P: fmt.Sprintf("ss%d", i), AF: af, At: at})
+			watch = append(watch, gOp{K: "lstat", P: fmt.Sprintf("ss%d", i)})
+		case 4:
+			add(gOp{K: "lstat", P: []string{"s0", "sd", fmt.Sprintf("missing%d", i)}[rng.Intn(3)]})
+		default:
+			add(gOp{K: "rename", P: fmt.Sprintf("rn%d", i), P2: fmt.Sprintf("rn%d-%s", i, strings.Repeat("t", rng.Intn(200)))})
+		}
+	}
+	for _, o := range watch {
+		add(o)
+	}
+	return p, block
+}
+
 func c18ManyReads(rng *rand.Rand, server string, n int) gProg {
 	p := gProg{Server: server, Handles: []gHandle{{Name: "r0", Kind: "get", Path: "f0"}, {Name: "r1", Kind: "get", Path: "f1"}}}
 	lens := []uint32{1, 64, 1000, 4096, 32768}
@@ -376,6 +501,31 @@ func c18Summarise(res c18Result, modelOK bool) gSummary {
 			Input: st, Expected: "identical streams", Actual: res.diff})
 	}
 	on, off := res.on, res.off
+	if e0, e1 := gEffects(off), gEffects(on); strings.Join(e0, "\n") != strings.Join(e1, "\n") {
+		var d0, d1 []string
+		for i := 0; i < len(e0) || i < len(e1); i++ {
+			a, b := "", ""
+			if i < len(e0) {
+				a = e0[i]
+			}
+			if i < len(e1) {
+				b = e1[i]
+			}
+			if a != b && len(d0) < 6 {
+				d0, d1 = append(d0, a), append(d1, b)
+			}
+		}
+		what := "the requests did not do the same with the allocator as without: the objects they name differ after Serve has returned (kind and permissions, size, owner, modification time)"
+		if srv == "rs" {
+			what = "the requests did not do the same with the allocator as without: a command or open handler was shown different flags / attributes (Request.Flags, AttrFlags(), Attributes(), Attrs)"
+		}
+		fail(lib.Failure{Kind: "oracle", Key: "alloc/effects-differ/" + srv, What: what, Input: st, Expected: map[string]any{"without_allocator": d0}, Actual: map[string]any{"with_allocator": d1}})
+	}
+	for _, o := range p.Ops {
+		if o.At != nil {
+			hist(fmt.Sprintf("request-with-attributes=%s/flags=%s", o.K, c18FlagNames(o.AF)))
+		}
+	}
 	hist(fmt.Sprintf("pages-used-at-quiescence=%d", on.UsedQ))
 	if !on.AllocOn || off.AllocOn {
 		fail(lib.Failure{Kind: "tie", Key: "harness/allocator-option", What: "allocator option not reflected by the server", Input: st})
@@ -446,12 +596,28 @@ func c18Summarise(res c18Result, modelOK bool) gSummary {
 	return s
 }
 
+func c18FlagNames(af uint32) string {
+	var t []string
+	for _, x := range []struct {
+		f uint32
+		s string
+	}{{wire.ASize, "size"}, {wire.AUIDGID, "owner"}, {wire.APerm, "perm"}, {wire.ATime, "times"}, {wire.AExt, "extended"}} {
+		if af&x.f != 0 {
+			t = append(t, x.s)
+		}
+	}
+	if len(t) == 0 {
+		return "none"
+	}
+	return strings.Join(t, "+")
+}
+
 // c18Bits: the four allocator facts of the c18.run cfg token, replaced in checkC18 by the regenerated ones (gCurCfg).
 var c18Bits = "1111"
 
 func checkC18(c *lib.Ctx) {
 	r := c.R
-	r.Rule = "request streams: (mixed) PRNG pipelines of depth 1…30 over all request kinds incl. failing ones; (read-lengths) READs of length 0, 1, 2, 32767…32769, 65535…65537, 100000, 262130…262132 (= page − 13 ± 1), 262143, 262144 and 300000 under max-tx-packet 32768 (default), 65536, 262131 and 262144, some crossing or past end of file; (writes) WRITEs up to the largest frame (262122 bytes); (held) 24…64 READs with one request held back while all others complete; (paths) path requests of every kind in relative and absolute form between READs. Server options: every stream is run on servers started with ReadOnly() x WithServerWorkingDirectory (os-backed; a read-only server refuses every modifying request — WRITEs of 0 … 262122 bytes among them — with PERMISSION_DENIED before any handler runs, the page of the request frame must come back all the same) resp. WithStartDirectory (request server), paths then sent relative (one in four absolute); the mixed family on the request server also with handler sets lacking optional interfaces; quick: the combinations rotate over the streams of a family and the length sweep runs under every one, thorough: every stream of the read-lengths, writes, held and paths families under every combination. Each stream is run serially (request after reply), pipelined un-gated, pipelined with PRNG handler durations, and pipelined with every instrumented call held and released in a chosen order (fifo, lifo, uniform, earliest-held-longest, hold-request-k) — each time against the server WITHOUT and WITH the allocator, same scratch tree and same forced order. A case = (server, stream, mode, order) = one pair of runs; non-trivial = at least one DATA reply or at least two requests in flight; distinct by (server, options, program, mode, order)"
+	r.Rule = "request streams: (mixed) PRNG pipelines of depth 1…30 over all request kinds incl. failing ones; (read-lengths) READs of length 0, 1, 2, 32767…32769, 65535…65537, 100000, 262130…262132 (= page − 13 ± 1), 262143, 262144 and 300000 under max-tx-packet 32768 (default), 65536, 262131 and 262144, some crossing or past end of file; (writes) WRITEs up to the largest frame (262122 bytes); (held) 24…64 READs with one request held back while all others complete; (paths) path requests of every kind in relative and absolute form between READs. (attrs) requests that carry an attribute block — SETSTAT / FSETSTAT with PRNG subsets of size, owner, permissions, times and extended pairs and PRNG values, OPEN and MKDIR with attributes, names of 4…170 bytes — standing in line behind a command request whose call is held (request server: STAT, LSTAT, MKDIR, READLINK, REMOVE, FSTAT, READDIR; os-backed: FSTAT, READDIR), followed by 1…3 more requests of different frame lengths (READ, WRITE of 1…5000 bytes, REALPATH of 30…3000 bytes, SETSTAT, LSTAT, RENAME) and by the LSTATs / FSTATs that show the outcome; gated with the command kept back as long as anything else can return, and once more serial / un-gated / with PRNG handler durations / gated fifo or uniform. Server options: every stream is run on servers started with ReadOnly() x WithServerWorkingDirectory (os-backed; a read-only server refuses every modifying request — WRITEs of 0 … 262122 bytes among them — with PERMISSION_DENIED before any handler runs, the page of the request frame must come back all the same) resp. WithStartDirectory (request server), paths then sent relative (one in four absolute); the mixed family on the request server also with handler sets lacking optional interfaces; quick: the combinations rotate over the streams of a family and the length sweep runs under every one, thorough: every stream of the read-lengths, writes, held and paths families under every combination. Each stream is run serially (request after reply), pipelined un-gated, pipelined with PRNG handler durations, and pipelined with every instrumented call held and released in a chosen order (fifo, lifo, uniform, earliest-held-longest, hold-request-k) — each time against the server WITHOUT and WITH the allocator, same scratch tree and same forced order. Besides the reply bytes the EFFECTS of the two runs are compared: on the request server what every command and open handler was shown (Request.Method, paths, Flags, AttrFlags(), Attributes(), raw Attrs; read after the call was let go), on the os-backed server kind / permissions / size / owner / modification time of every object the requests name once Serve has returned. Page discipline while requests wait: in every gated run, whenever the pipeline has taken in the whole stream, pages in use >= unanswered requests + 1 must hold (each unanswered request owns the page of its frame, the receive loop one more). A case = (server, stream, mode, order) = one pair of runs; non-trivial = at least one DATA reply or at least two requests in flight; distinct by (server, options, program, mode, order)"
 	thorough := c.Tier == "thorough"
 	if t := gCurCfg(c, "c18", "11111:262144:32768"); len(t) >= 4 {
 		c18Bits = t[:4]
@@ -519,6 +685,30 @@ func checkC18(c *lib.Ctx) {
 						f(o)
 					}
 				}
+			}
+			// The attrs family goes first: its gated cases are decided by the harness alone (the command is held, the whole
+			// stream is taken in before a gate is opened), so the failures that are written out for replay are of that kind.
+			nAttrs := 36
+			if thorough {
+				nAttrs = 600
+			}
+			var attrProgs []gProg
+			for k := 0; k < nAttrs; k++ {
+				seed := c.Rand.Int63()
+				under(func(o c02Opt) {
+					p, block := c18AttrProgram(rand.New(rand.NewSource(seed)), server, o.ReadOnly)
+					o.apply(&p)
+					if o.WorkDir {
+						for i := range p.Ops {
+							p.Ops[i].Abs = p.Ops[i].P != "" && (i+k)%4 == 0
+						}
+					}
+					attrProgs = append(attrProgs, p)
+					jobs = append(jobs, gJSON(c18Stream{Case: gCase{Prog: p, Mode: "gated", Order: c18HoldOrder(p, block, c.Rand), Tag: "attrs/behind-held-command"}, Fam: "attrs"}))
+				})
+			}
+			for k, p := range attrProgs {
+				add("attrs", p, []string{"gated/fifo", "sleep", "free", "serial", "gated/uniform", "sleep"}[k%6])
 			}
 			deck := newC02Deck(c.Rand, server, thorough, nil)
 			for k := 0; k < nMixed; k++ {
